@@ -67,7 +67,12 @@ const _: () = {
 
         #[cfg(feature="openapi")]
         fn openapi_inbound() -> openapi::Inbound {
-            FR::openapi_inbound()
+            match FR::openapi_inbound() {
+                /* a request without that body is `None` here: the body is optional
+                   ( other inbounds are not: e.g. `Query<T>` never answers `None` ) */
+                openapi::Inbound::Body(body) => openapi::Inbound::Body(body.not_required()),
+                inbound => inbound
+            }
         }
     }
 };
